@@ -472,6 +472,10 @@ class C07(Check):
         if name in ('load_configuration-set', 'cli_display'):
             if (x + '\n' + y) not in io['texts']:
                 return ('C07:caller-string-altered:' + name, 'joined set commands not found unaltered')
+            if name == 'load_configuration-set' and ('text' not in io['attrs'] or 'set' not in io['attrs'] or 'xml' in io['attrs']):
+                # Junos XML protocol: <configuration-set> goes with action="set" format="text" (the documented meaning of action='set')
+                return ('C07:junos-set-format', 'load_configuration(action="set") with the format left at its default must be sent as action="set" '
+                        'format="text"; attribute values on the wire: %s' % (io['attrs'][:6],))
             return None
         hay = io['texts'] + io['attrs']
         tail = lambda v, s: v == s or v.endswith('/' + s)
